@@ -28,6 +28,8 @@ import LolHtml.Lemmas.FullObs
 import LolHtml.Thm.C01
 import LolHtml.Thm.C11
 import LolHtml.Thm.C12
+import LolHtml.Gen.Syntax
+import LolHtml.Gen.Tags
 
 namespace LolHtml.Thm.Full
 open LolHtml LolHtml.Model LolHtml.Model.Full LolHtml.Model.Handlers LolHtml.EditModel LolHtml.Lemmas.Full
@@ -324,8 +326,8 @@ theorem Full_vm_direct (s : St) (vm : SelVM.Vm) (hv : s.vm = some vm) (name : Lo
         | ok d =>
           refine ⟨vm', infos, d, ?_, hm, ?_, ?_⟩
           · simp [SelVM.Vm.handleStartTag, he, bind, Except.bind, pure, Except.pure]
-          · simp [hm]
-          · simp [hm]
+          · simp
+          · simp
 
 /-- **Full_vm_aux.** When `handle_start_tag` asks for the attributes (`InfoRequest`) and the request is
 answered with `info`, the two steps together are `SelVM.Vm.handleStartTag` on the tag WITH the
@@ -365,8 +367,8 @@ theorem Full_vm_aux (s : St) (vm : SelVM.Vm) (hv : s.vm = some vm) (name : Local
             refine ⟨vm', infos, d, ?_, hm, ?_, ?_⟩
             · simp only [SelVM.Vm.handleStartTag, he, bind, Except.bind]
               exact hr
-            · simp [hm]
-            · simp [hm]
+            · simp
+            · simp
 
 /-! ## The dispatcher hands over the attributes of the tag it is handling -/
 
@@ -417,7 +419,7 @@ theorem opAct_faithful (e : Element) (op : ElementOp) :
   cases hc : e.canHaveContent <;> cases op <;>
     simp [Element.apply, opAct, endMut, hc, Element.removeContent, Element.setEndTagMutations,
       Element.setStartTagMutations, Element.endTagMutationsMut] <;>
-    (try split) <;> simp_all [Element.setEndTagMutations, Element.setStartTagMutations]
+    (try split) <;> simp_all
 
 /-- **Full_elemAct_faithful.** The `ElemAct` the glue feeds to the dispatcher model
 (`Handlers.Dispatcher.handleStartTag`) for a list of API calls says exactly what those calls do to the
@@ -478,5 +480,73 @@ theorem Full_endTagHandler_faithful (src : Range) (subs : List (HId × Nat)) (h 
       | cons sub subs => simpa [runEndTagUser] using ih subs _ (t0.applyOps ops)
   unfold runEndTagHandler EndTagHandler.run
   exact key _ _ _ _
+
+
+/-! ## Instantiation at the code's current tables, non-vacuity (kernel-evaluated runs of the whole model) -/
+
+/-- the world the driver runs in lane `full`: tables regenerated from /repo, the real controller -/
+def genWorld (cfg : Cfg) : World (FullSt cfg) := fullWorld Gen.Syntax.table Gen.Tags.cfg cfg
+
+theorem C01_real_gen (cfg : Cfg) (ho : cfg.observing = true) (settings : Settings) (chunks : List Bytes)
+    (hok : ∀ x ∈ (run (genWorld cfg) (Rewriter.new (genWorld cfg) (FullSt.init cfg) settings) chunks).2, x = CallRes.ok) :
+    sinkBytes (run (genWorld cfg) (Rewriter.new (genWorld cfg) (FullSt.init cfg) settings) chunks).1.sink = chunks.flatten :=
+  C01_real Gen.Syntax.table Gen.Tags.cfg cfg (cfg.observing_sound ho) settings chunks hok
+
+def bDiv : Bytes := [100,105,118]
+
+/-- selector `div` with an element closure that registers one call-free `on_end_tag` closure, and a
+document-level text observer -/
+def obsCfg : Cfg :=
+  { sels := [([⟨[.type bDiv], []⟩], { element := some [([.onEndTag []], false)] })],
+    docs := [{ text := some [([], false)] }] }
+
+/-- `<div a=b>x<` , `/div>y` -/
+def sampleChunks : List Bytes := [[60,100,105,118,32,97,61,98,62,120,60], [47,100,105,118,62,121]]
+
+example : obsCfg.observing = true := by decide
+
+/-- the hypothesis of `C01_real` is satisfiable on a run in which six closures are invoked -/
+example : (run (genWorld obsCfg) (Rewriter.new (genWorld obsCfg) (FullSt.init obsCfg) {}) sampleChunks).2
+    = [.ok, .ok, .ok] := by decide +kernel
+
+example : sinkBytes (run (genWorld obsCfg) (Rewriter.new (genWorld obsCfg) (FullSt.init obsCfg) {}) sampleChunks).1.sink
+    = sampleChunks.flatten := by decide +kernel
+
+example : (run (genWorld obsCfg) (Rewriter.new (genWorld obsCfg) (FullSt.init obsCfg) {}) sampleChunks).1.stream.disp.ctl.1.log.reverse.map (·.who)
+    = [.element 0, .text 1, .text 1, .endTag 0 0, .text 1, .text 1] := by decide +kernel
+
+/-- scanner mode at start iff no document-level token handler: `Full_initial_scan` on instances -/
+example : ((fullCtl obsCfg).initialFlags (FullSt.init obsCfg)).isEmpty = false := by decide +kernel
+example : ((fullCtl { obsCfg with docs := [{ end_ := some [] }] }).initialFlags
+    (FullSt.init { obsCfg with docs := [{ end_ := some [] }] })).isEmpty = true := by decide +kernel
+
+/-- a mutating script is not an observer, and the model really rewrites: `el.remove()` on `div` -/
+def mutCfg : Cfg := { sels := [([⟨[.type bDiv], []⟩], { element := some [([.remove], false)] })] }
+
+example : mutCfg.observing = false := by decide
+example : sinkBytes (run (genWorld mutCfg) (Rewriter.new (genWorld mutCfg) (FullSt.init mutCfg) {}) sampleChunks).1.sink
+    = [121] := by decide +kernel
+
+/-- selector `[a]` (the VM needs the attributes: `InfoRequest`), `set_attribute("c","d")` and
+`after("!")`: output `<div a=b c="d">x</div>!y` -/
+def auxCfg : Cfg :=
+  { sels := [([⟨[.attrExists [97]], []⟩],
+      { element := some [([.setAttribute [99] [100], .after (.buffer [33] .html)], false)] })] }
+
+example : sinkBytes (run (genWorld auxCfg) (Rewriter.new (genWorld auxCfg) (FullSt.init auxCfg) {}) sampleChunks).1.sink
+    = [60,100,105,118,32,97,61,98,32,99,61,34,100,34,62,120,60,47,100,105,118,62,33,121] := by decide +kernel
+
+/-- `C11_real` non-vacuity: a text observer failing at its 2nd invocation (the closing chunk of the
+text node, at `</div>` in the second write), graceful bail-out on: the second `write` fails, the sink
+still holds every byte written -/
+def failCfg : Cfg := { docs := [{ text := some [([], false), ([], true)] }] }
+
+example : failCfg.observing = true := by decide
+example : (writeAll (genWorld failCfg) (Rewriter.new (genWorld failCfg) (FullSt.init failCfg) { bailOnHandler := true }) sampleChunks).2
+    = [.ok, .err .handler] := by decide +kernel
+example : sinkBytes (writeAll (genWorld failCfg) (Rewriter.new (genWorld failCfg) (FullSt.init failCfg) { bailOnHandler := true }) sampleChunks).1.sink
+    = sampleChunks.flatten := by decide +kernel
+example : sinkBytes (writeAll (genWorld failCfg) (Rewriter.new (genWorld failCfg) (FullSt.init failCfg) {}) sampleChunks).1.sink
+    = [60,100,105,118,32,97,61,98,62,120] := by decide +kernel
 
 end LolHtml.Thm.Full
